@@ -79,6 +79,10 @@ CHECKS = {
    technique="exhaustive enumeration of all keys of length 0..=4 over an 8-symbol alphabet plus decorated variants of the registered keys x constructor form x value type, and of the strict RFC 3339 rendering grid for the three time-claim constructors, on the real constructors",
    text="CustomClaim construction must fail with the reserved-key error iff the key is byte-equal to one of the seven registered keys, for all three constructor forms and four value types, and otherwise keep key and value verbatim (also read back through a built token). Expiration/NotBefore/IssuedAt constructors must accept every strict RFC 3339 string of the grid (8 dates x 5 times x 13 fraction forms x 2 881 offsets) verbatim and reject every listed string that does not start with an ISO 8601 date.",
    note="R4 decides strictness; strings that merely start with a date are unconstrained. " + A_NOTE),
+ "C19": dict(engine="C-lattice", design_ref="5/C19",
+   technique="exhaustive enumeration of a finite grid of generated client programs (one type substitution each, from a compiling base), type-checked against the working tree by one cargo check --keep-going; compile-table reference model",
+   text="504 generated programs: 6 operations x 8 token protocols x 8 key protocols, nonce version x token version, purpose misuse (encrypt/decrypt on public, sign/verify on local) at the core and generic-builder layers, set_implicit_assertion on 5 holder types x 8 protocols, symmetric key with public purpose, asymmetric keys from Key<N> for N in {32,48,49,64}. A program must compile iff the table says so; a must-not-compile program must fail with a type-system error code located on its substituted line (anything else is a machinery error, not a pass). Same grid in both tiers.",
+   note="rustc 1.95 is the type-checking oracle; the grid is the quantifier's own enumeration (operation, token protocol, key protocol)."),
  "C20": dict(engine="C-lattice", design_ref="5/C20",
    technique="explicit-state enumeration of the feature-subset lattice; cargo build+run of a cfg-gated smoke client per state",
    text="Every configuration of the stated space (quick: 8 singletons, 28 pairs, full set x 3 layers + default + none = 113; thorough: all 767) is built from /repo's working tree and its smoke client run; every enabled (protocol, layer) block must round-trip. Exhaustive over the configuration space the property quantifies over; monotonicity follows because the client source is identical in every configuration.",
@@ -118,7 +122,7 @@ def main():
         "engines": [
             {"name": "A-choice-tree", "path": "harness/src/explore.rs", "serves_properties": ["C01","C02","C03","C04","C05","C06","C07","C08","C09","C10","C11","C12","C18"], "kind_free_text": "stateless exhaustive enumeration of a tree of named finite choice points, one execution of the real crate per path; deviation-bounded and full-product modes"},
             {"name": "B-stateright", "path": "harness/src/models", "serves_properties": ["C13","C14","C15","C16","C17"], "kind_free_text": "stateright 0.31 BFS over a reference model; every transition replays the call history on the real object"},
-            {"name": "C-lattice", "path": "c20/run.py", "serves_properties": ["C20"], "kind_free_text": "explicit enumeration of feature configurations / generated client programs with cargo as transition function"},
+            {"name": "C-lattice", "path": "c20/run.py", "serves_properties": ["C19","C20"], "kind_free_text": "explicit enumeration of feature configurations / generated client programs with cargo as transition function"},
         ],
         "checks": checks,
         "not_applicable": na,
